@@ -1202,12 +1202,22 @@ class FnRun:
             encl[b] = hs
         return succ, rpo, back, encl
 
-    def run(self):
-        """returns (return value or None, guard under which the function returns, mem)"""
+    def run(self, start_bb=None, init=None):
+        """returns (return value or None, guard under which the function returns, mem).
+
+        With `start_bb` (a loop head) the activation starts there instead of bb0, from the locals in
+        `init` ({local index: value}), and executes exactly ONE iteration of that loop: every path
+        that comes back to `start_bb` along a back edge is not continued but collected in
+        `self.cut_states` [(guard, mem)] -- the post-state of one loop step, over which the caller
+        asserts the loop invariant (inductive step from an arbitrary invariant-satisfying state)."""
         E = self.E
         fn = self.fn
         E.encoded[fn.name] = fn.header
         succ, rpo, back, encl = self.analyse_cfg()
+        self.cut_states = []
+        if start_bb is not None:
+            for n, v in (init or {}).items():
+                self.mem0[self.cell(n, self.mem0)] = v
         pending = {}     # node -> list of (guard, mem)
         heap = []
         cnt = itertools.count()
@@ -1228,7 +1238,10 @@ class FnRun:
                 heapq.heappush(heap, (key(node), next(cnt), node))
             pending[node].append((guard, mem))
 
-        push((0, ()), self.entry_guard, self.mem0)
+        if start_bb is None:
+            push((0, ()), self.entry_guard, self.mem0)
+        else:
+            push((start_bb, tuple(0 for _ in encl[start_bb])), self.entry_guard, self.mem0)
         rets = []
         while heap:
             _, _, node = heapq.heappop(heap)
@@ -1249,6 +1262,10 @@ class FnRun:
             for (tgt, g, m) in outs:
                 if tgt == 'return':
                     rets.append((g, m))
+                    continue
+                if start_bb is not None and tgt == start_bb and (bb, tgt) in back:
+                    if E.reachable(g):
+                        self.cut_states.append((g, m))
                     continue
                 hs = encl[tgt]
                 cmap = dict(zip(encl[bb], counts))
